@@ -7,6 +7,7 @@ mod ops_env;
 mod ops_graph;
 mod ops_layer;
 mod ops_parse;
+mod ops_serde;
 mod ops_writer;
 
 fn main() {
@@ -37,6 +38,7 @@ fn dispatch(op: &str, req: &Value) -> Value {
         "layer-trait" => ops_layer::layer_trait(req),
         "layer-det" => ops_layer::layer_det(req),
         "writer" => ops_writer::run(req),
+        "serde-doc" => ops_serde::doc(req),
         "env-apply" => ops_env::apply(req),
         "env-roundtrip" => ops_env::roundtrip(req),
         "env-paths" => ops_env::paths(req),
